@@ -18,8 +18,9 @@ VARIABLES prog,     \* index of the program under test
           codes,    \* number of code ids stored (code ids are 1..codes)
           ctr,      \* the contract instantiated last: [exists, code, label, admin, mark, count, bal] (one contract per history suffices)
           last,     \* result of the last operation: [ok, kind, code]   kind: "none" | "resp" | "value" | "handler_err"
+          blk,      \* blocks the chain was moved on by since it started (App::update_block / set_block)
           hist      \* history of operations (stimuli for the implementation)
-mvars == <<prog, codes, ctr, last, hist>>
+mvars == <<prog, codes, ctr, last, blk, hist>>
 
 MP == Programs[prog]
 OwnPart == MP.parts[Len(MP.parts)]
@@ -51,7 +52,23 @@ Store ==
     /\ codes' = codes + 1
     /\ last' = NoRes
     /\ hist' = Append(hist, Op("store", "", "", 0, "", 0, "", "", ""))
-    /\ UNCHANGED <<prog, ctr>>
+    /\ UNCHANGED <<prog, ctr, blk>>
+
+(* ---- the helpers of the test harness that do not talk to a contract ------------------------------------------ *)
+(* the chain is moved on by n blocks: relative to the current block (update_block) or by writing the whole block  *)
+(* information (set_block); a contract's state does not change, later operations see the new height              *)
+MoveBlock(how, n) ==
+    /\ codes >= 1 /\ blk + n <= 4
+    /\ blk' = blk + n
+    /\ last' = NoRes
+    /\ hist' = Append(hist, Op(how, "", "", n, "", 0, "", "", ""))
+    /\ UNCHANGED <<prog, codes, ctr>>
+(* what the chain knows about a stored code id *)
+CodeInfo(i) ==
+    /\ i \in 1..codes
+    /\ last' = [ok |-> TRUE, kind |-> "value", code |-> i]
+    /\ hist' = Append(hist, Op("code_info", "", "", i, "", 0, "", "", ""))
+    /\ UNCHANGED <<prog, codes, ctr, blk>>
 
 (* label: the proxy's default label is "Contract"; admin "" = none, "<empty>" = the empty string given as the admin; *)
 (* salt "" = plain instantiate                                                                                      *)
@@ -66,7 +83,7 @@ Instantiate(val, sender, funds, label, admin, salt) ==
                        mark |-> m.name, count |-> 1, bal |-> AtomOf(funds), funds |-> funds]
                  ELSE ctr
     /\ hist' = Append(hist, Op("instantiate", "own", InstM.name, val, sender, funds, label, admin, salt))
-    /\ UNCHANGED <<prog, codes>>
+    /\ UNCHANGED <<prog, codes, blk>>
 
 Exec(pm, val, sender, funds) ==
     /\ ctr.exists /\ pm \in MethodsOfKind("exec")
@@ -74,20 +91,20 @@ Exec(pm, val, sender, funds) ==
     /\ ctr' = IF pm.m.outcome = "ok" THEN [ctr EXCEPT !.mark = pm.m.name, !.count = @ + 1, !.bal = @ + AtomOf(funds), !.funds = funds]
                  ELSE ctr   \* a failed call changes nothing
     /\ hist' = Append(hist, Op("exec", pm.part, pm.m.name, val, sender, funds, "", "", ""))
-    /\ UNCHANGED <<prog, codes>>
+    /\ UNCHANGED <<prog, codes, blk>>
 
 Query(pm, val) ==
     /\ ctr.exists /\ pm \in MethodsOfKind("query")
     /\ last' = ResOf(pm.m)
     /\ hist' = Append(hist, Op("query", pm.part, pm.m.name, val, "", 0, "", "", ""))
-    /\ UNCHANGED <<prog, codes, ctr>>
+    /\ UNCHANGED <<prog, codes, ctr, blk>>
 
 Sudo(pm, val) ==
     /\ ctr.exists /\ pm \in MethodsOfKind("sudo")
     /\ last' = ResOf(pm.m)
     /\ ctr' = IF pm.m.outcome = "ok" THEN [ctr EXCEPT !.mark = pm.m.name, !.count = @ + 1] ELSE ctr
     /\ hist' = Append(hist, Op("sudo", pm.part, pm.m.name, val, "", 0, "", "", ""))
-    /\ UNCHANGED <<prog, codes>>
+    /\ UNCHANGED <<prog, codes, blk>>
 
 (* only the admin may migrate; histories keep to operations the chain itself admits *)
 Migrate(val, sender) ==
@@ -95,7 +112,7 @@ Migrate(val, sender) ==
     /\ last' = ResOf(MigM)
     /\ ctr' = IF MigM.outcome = "ok" THEN [ctr EXCEPT !.mark = MigM.name, !.count = @ + 1, !.code = codes] ELSE ctr
     /\ hist' = Append(hist, Op("migrate", "own", MigM.name, val, sender, 0, "", "", ""))
-    /\ UNCHANGED <<prog, codes>>
+    /\ UNCHANGED <<prog, codes, blk>>
 
 MNext ==
     \/ Store
@@ -105,12 +122,14 @@ MNext ==
     \/ \E pm \in MethodsOfKind("query"), val \in {0, 1} : Query(pm, val)
     \/ \E pm \in MethodsOfKind("sudo"), val \in {0, 1} : Sudo(pm, val)
     \/ \E val \in {0, 1}, s \in Senders : Migrate(val, s)
+    \/ \E how \in {"update_block", "set_block"}, n \in {1, 2} : MoveBlock(how, n)
+    \/ \E i \in 1..2 : CodeInfo(i)
 
 (* C12 at design level: the contract's state is a function of the history -- a handler error (or a refused    *)
 (* operation) leaves no trace, every success leaves exactly its own                                          *)
 MethodOfHist(o) == IF o.op = "instantiate" THEN InstM ELSE IF o.op = "migrate" THEN MigM
                    ELSE CHOOSE pm \in MethodsOfKind(o.op) : pm.part = o.part /\ pm.m.name = o.method
-OpOk(o) == o.op = "store" \/ (IF o.op \in {"instantiate", "migrate"} THEN MethodOfHist(o).outcome = "ok" ELSE MethodOfHist(o).m.outcome = "ok")
+OpOk(o) == o.op \in {"store", "update_block", "set_block", "code_info"} \/ (IF o.op \in {"instantiate", "migrate"} THEN MethodOfHist(o).outcome = "ok" ELSE MethodOfHist(o).m.outcome = "ok")
 OkInst == {i \in 1..Len(hist) : hist[i].op = "instantiate" /\ OpOk(hist[i])}
 LastInst == CHOOSE i \in OkInst : \A j \in OkInst : j <= i
 Since == {i \in 1..Len(hist) : i > LastInst /\ OpOk(hist[i])}
@@ -124,4 +143,8 @@ C12_ErrorChangesNothing ==
           /\ ctr.label = hist[LastInst].rawlabel /\ ctr.admin = hist[LastInst].admin
 C12_CountMatchesHistory ==
     ctr.exists => ctr.count >= 1
+(* the chain's height is the sum of the moves in the history *)
+RECURSIVE SumMoves(_)
+SumMoves(S) == IF S = {} THEN 0 ELSE LET i == CHOOSE x \in S : TRUE IN hist[i].val + SumMoves(S \ {i})
+C12_HeightIsSumOfMoves == blk = SumMoves({i \in 1..Len(hist) : hist[i].op \in {"update_block", "set_block"}})
 =============================================================================
